@@ -51,11 +51,11 @@ class validate(DataStreamProcessor):
         return func
 
     def process_resource(self, res):
-        if self.resources.match(res.res.name):
+        if self.matcher.match(res.res.name):
             yield from self.validator(res)
         else:
             yield from super().process_resource(res)
 
     def process_datapackage(self, dp):
-        self.resources = ResourceMatcher(self.resources, dp)
+        self.matcher = ResourceMatcher(self.resources, dp)
         return super().process_datapackage(dp)
